@@ -73,8 +73,16 @@ def run_one(t):
     (d / "lib.rs").write_text("mod other;\n" + src if mode == "path" else src)
     other = "fn  other( ){}\n"
     (d / "other.rs").write_text(other)
+    root_src = "mod body;\nfn  root_item( ){}\n\n\n\nfn  root_two( ){}\n"
+    if mode == "child":
+        # the selected file is an out-of-line module of the run, not its root: lib.rs (never
+        # selected) declares it, and comes first in the source map
+        (d / "lib.rs").write_text(root_src)
+        (d / "body.rs").write_text(src)
     shift = 1 if mode == "path" else 0
     fname = str((d / "lib.rs").resolve()) if mode == "path" else "stdin"
+    if mode == "child":
+        fname = str((d / "body.rs").resolve())
     # other spellings of the same file in the selection: a `..` component, a symlinked directory
     spell = extra[0] if extra and extra[0] in ("dotdot", "symlink") else "canon"
     if spell != "canon":
@@ -90,7 +98,20 @@ def run_one(t):
     env = core.run_env({"HOME": str(d)})
     common = ["--unstable-features", "--config", "error_on_line_overflow=true", "--file-lines", js] \
         + extra
-    if mode == "path":
+    if mode == "child":
+        r = subprocess.run([rustfmt] + common + ["--emit", "stdout", str(d / "lib.rs")],
+                           cwd=d, env=env, capture_output=True, text=True, timeout=60)
+        parts = {}
+        for chunk in r.stdout.split(str(d.resolve()) + "/"):
+            for nm in ("lib", "body"):
+                if chunk.startswith(nm + ".rs:\n\n"):
+                    parts[nm] = chunk[len(nm) + 6:]
+        out_body = parts.get("body", "")
+        r2 = subprocess.run([rustfmt] + common + [str(d / "lib.rs")], cwd=d, env=env,
+                            capture_output=True, text=True, timeout=60)
+        untouched = (d / "lib.rs").read_text() == root_src and parts.get("lib", root_src) == root_src
+        stderr = r.stderr
+    elif mode == "path":
         r = subprocess.run([rustfmt] + common + ["--emit", "stdout", str(d / "lib.rs")],
                            cwd=d, env=env, capture_output=True, text=True, timeout=60)
         # "<path>:\n\n<text>" per file
@@ -196,15 +217,26 @@ def run(tier, seed, replay=None):
                 for k, sel in enumerate(sels):
                     mode = "path" if (k + gap) % 2 == 0 else "stdin"
                     jobs.append((len(jobs), base, rustfmt, src, spans, sel, mode, singles, []))
+                    if k % 3 == 0:
+                        jobs.append((len(jobs), base, rustfmt, src, spans, sel, "child", singles, []))
                     if mode == "path" and k % 5 == 0:
                         jobs.append((len(jobs), base, rustfmt, src, spans, sel, mode, singles,
                                      ["dotdot" if k % 10 == 0 else "symlink"]))
                     if any(x in "UWVX" for x in seq) and k % 2 == 0:
                         jobs.append((len(jobs), base, rustfmt, src, spans, sel, mode, singles,
                                      ["--config", "group_imports=StdExternalCrate"]))
+        # a fixed core for the child-module mode: every single line that starts an item, and the
+        # whole file, for every sequence with one blank line between the items
+        core_jobs = []
+        for seq in SEQS:
+            src, spans = build_source(seq, 1)
+            n = src.count("\n")
+            for sel in [[[lo, lo]] for (_, lo, _) in spans] + [[[1, n]]]:
+                core_jobs.append((0, base, rustfmt, src, spans, sel, "child", singles, []))
         if tier == "quick":
             rng.shuffle(jobs)
             jobs = jobs[:420]
+        jobs = [(k,) + j[1:] for k, j in enumerate(core_jobs + jobs)]
         with ThreadPoolExecutor(max_workers=12) as ex:
             grecs = list(ex.map(run_one, jobs))
         slim = []
